@@ -51,7 +51,7 @@ func init() {
 				r.Check(cases[u] != nil, "copyAST/case:*ast."+u, sw.Pos(), "node kind *ast.%s is copied", u)
 			}
 			// post-order: astutil.Apply(original, nil, post)
-			for _, cl := range callsIn(fi.Decl.Body) {
+			for _, cl := range fi.callsDeep(fi.Decl.Body) {
 				if fi.calleeName(cl) == "golang.org/x/tools/go/ast/astutil.Apply" {
 					_, isLit := ast.Unparen(cl.Args[2]).(*ast.FuncLit)
 					r.Check(fi.isNilIdent(cl.Args[1]) && isLit, "post-order", cl.Pos(), "the copier runs as the post-order callback (children are in the map before their parent is built)")
@@ -217,7 +217,7 @@ func init() {
 			// node = copyAST(node) before any Apply
 			var copyPos, firstApply ast.Node
 			var applies []*ast.CallExpr
-			for _, cl := range callsIn(fi.Decl.Body) {
+			for _, cl := range fi.callsDeep(fi.Decl.Body) {
 				switch fi.calleeName(cl) {
 				case pathW + ".copyAST":
 					copyPos = cl
@@ -319,7 +319,7 @@ func init() {
 // copyASTSwitch finds the type switch inside copyAST's astutil.Apply callback.
 func copyASTSwitch(fi *FuncInfo) *ast.TypeSwitchStmt {
 	var sw *ast.TypeSwitchStmt
-	ast.Inspect(fi.Decl.Body, func(n ast.Node) bool {
+	fi.inspect(fi.Decl.Body, func(n ast.Node) bool {
 		if s, ok := n.(*ast.TypeSwitchStmt); ok && sw == nil {
 			sw = s
 		}
